@@ -35,6 +35,9 @@ def run(ctx):
         combos = [(si, sd, c) for si in styles for sd in styles for c in caches]
         rng.shuffle(combos)
         combos = combos if thorough else combos[:18] + [("relative", "absolute", None), ("relative", "relative", True), ("symlinked_parent", "relative", -1)]
+        # names related as strings or as directories: one a string prefix of the other (siblings), one inside the other
+        combos += [("x:/store_internal", "x:/store", None), ("x:/st", "x:/st_data", True), ("x:/dd/internal", "x:/dd", None),
+                   ("x:/ii", "x:/ii/data", None), ("x:/proj.store", "x:/proj", 2)]
         w = progs.gen_world(rng, nfun=3, allow=("call", "keep", "datafn"))
         for f in w["funs"]:
             f["uses_ext"] = False
@@ -59,6 +62,8 @@ def run(ctx):
             os.symlink(os.path.join(root, "real_parent"), os.path.join(root, "linked"))
 
             def spell(style, leaf):
+                if style.startswith("x:"):
+                    return root + style[2:]
                 if style == "absolute":
                     return os.path.join(root, "abs_" + leaf)
                 if style == "relative":
@@ -78,10 +83,15 @@ def run(ctx):
             wk = pipeline.WorkerProc("real", cwd=cwd1)
             bad = None
             try:
-                wk.call(cmd="store_api", internal_dir=internal, data_dir=data, cache_objects=cache)
+                try:
+                    wk.call(cmd="store_api", internal_dir=internal, data_dir=data, cache_objects=cache)
+                except RuntimeError as e:
+                    bad = "the store cannot be configured with these directories: " + str(e).strip().splitlines()[-1][:300]
+                    wk.close()
+                    wk = pipeline.WorkerProc("real", cwd=cwd1)
                 wk.call(cmd="world", dir=ws, module="c16w", extmod="c16e")
-                r = wk.call(cmd="run", entry=entry)
-                if r["error"] is not None or r["value"] != want:
+                r = wk.call(cmd="run", entry=entry) if bad is None else None
+                if bad is None and (r["error"] is not None or r["value"] != want):
                     bad = "keep under this configuration: error %s, value %r (plain execution: %r)" % (r["error"], r["value"], want)
                 if bad is None:
                     for p, v in want_paths.items():
@@ -127,9 +137,16 @@ def run(ctx):
             wk = pipeline.WorkerProc("real", cwd=root)
             try:
                 wk.call(cmd="world", dir=ws, module="c16w", extmod="c16e")
-                wk.call(cmd="store_api", internal_dir=root + "/int", data_dir=root + "/dataA", cache_objects=None)
-                ra = wk.call(cmd="run", entry=entry)
-                wk.call(cmd="store_api", internal_dir=root + "/int", data_dir=root + "/dataB", cache_objects=None)
+                # (every second time with directory names that are string prefixes of one another)
+                nint, na, nb = ("/int", "/dataA", "/dataB") if vi % 2 else ("/pipeline_cache", "/pipeline", "/pipeline_staging")
+                try:
+                    wk.call(cmd="store_api", internal_dir=root + nint, data_dir=root + na, cache_objects=None)
+                    ra = wk.call(cmd="run", entry=entry)
+                    wk.call(cmd="store_api", internal_dir=root + nint, data_dir=root + nb, cache_objects=None)
+                except RuntimeError as e:
+                    res.violations.append({"what": "a data view cannot be configured: " + str(e).strip().splitlines()[-1][:300],
+                                           "input": {"views": [nint, na, nb]}, "kf": None})
+                    continue
                 missing = [p for p in want_paths if wk.call(cmd="load", path=p)["error"] is None]
                 rb = wk.call(cmd="run", entry=entry)
                 res.evaluations += 2
@@ -145,12 +162,12 @@ def run(ctx):
                     for p, v in want_paths.items():
                         if wk.call(cmd="load", path=p)["value"] != v:
                             bad = "view B does not serve %s after evaluating" % p
-                    wk.call(cmd="store_api", internal_dir=root + "/int", data_dir=root + "/dataA", cache_objects=None)
+                    wk.call(cmd="store_api", internal_dir=root + nint, data_dir=root + na, cache_objects=None)
                     for p, v in want_paths.items():
                         if wk.call(cmd="load", path=p)["value"] != v:
                             bad = "view A lost %s after view B was used" % p
                 if bad:
-                    res.violations.append({"what": bad, "input": {"views": ["dataA", "dataB"], "source": progs.render_world(w, "c16e")}, "kf": None})
+                    res.violations.append({"what": bad, "input": {"views": [nint, na, nb], "source": progs.render_world(w, "c16e")}, "kf": None})
             finally:
                 wk.close()
         if ctx["driver_ok"]:
